@@ -190,9 +190,19 @@ def run_case(base, idx, seed, op, shim, sh):
         open(log, "w").close()
         os.chown(log, 65534, 65534)
         env = {"LD_PRELOAD": shim, "VP_SHIM_PREFIX": root, "VP_SHIM_MODE": "trace", "VP_SHIM_LOG": log}
-        mon = vp.Mon("layers", env=env, prefix=vp.NOBODY)
+        # where the process stands: anywhere (0-2), in <root> with the layers directory spelled relative to it (3), or in a directory that
+        # has been removed since (4: its working directory cannot be determined any more - nothing here needs it)
+        stance = idx % 5
+        gone = os.path.join(root, "app", "removed-cwd")
+        if stance == 4:
+            os.makedirs(gone)
+            os.chown(gone, 65534, 65534)
+        case["cwd"] = ["elsewhere", "elsewhere", "elsewhere", "root, relative layers dir", "a removed directory"][stance]
+        mon = vp.Mon("layers", env=env, prefix=vp.NOBODY, cwd=gone if stance == 4 else None)
         try:
-            mon.call({"op": "init", "layers_dir": layers, "app_dir": os.path.join(root, "app"), "bp_dir": os.path.join(root, "bp")})
+            if stance == 4:
+                os.rmdir(gone)
+            mon.call({"op": "init", "layers_dir": "layers" if stance == 3 else layers, "app_dir": os.path.join(root, "app"), "bp_dir": os.path.join(root, "bp"), **({"chdir": root} if stance == 3 else {})})
             rep = mon.call(request_for(op, name))
         except vp.ExecutorDied as e:
             sh.evaluations += 1
